@@ -110,7 +110,8 @@ Record result := mkRes {
   r_change_pos : option nat; (* CreatedTransactionResult::change_pos *)
   r_vsize : Z;               (* GetVirtualTransactionSize of the returned (signed) transaction *)
   r_max_vsize : Z;           (* CalculateMaximumSignedTxSize of it *)
-  r_bump : Z;                (* ancestor bump fee of its unconfirmed inputs at the effective feerate *)
+  r_bump : Z;                (* ancestor bump fees at the effective feerate as the code accounts for them: individual bump fee of
+                                every preset input + min(sum of individual, combined) over the automatically selected ones *)
   r_signed : bool            (* the caller asked for a signed transaction *)
 }.
 
